@@ -12,9 +12,12 @@ CfgOf(e) == [scn |-> e.cfg.scn, needInfo |-> e.cfg.needInfo, ext |-> e.cfg.ext, 
              plan |-> e.cfg.plan, present |-> ToSet(e.cfg.present), rfail |-> e.cfg.rfail, rcancel |-> e.cfg.rcancel,
              initRows |-> e.cfg.initRows, wbreak |-> -1]
 ObsConfigs == {CfgOf(Obs)}
+\* (requests of a session also record what they put on the wire: it must be what the model says this request wrote)
+WireProj == [i \in 1..Len(c2s) |-> [k |-> c2s[i].k, v |-> c2s[i].v]]
 Matches == /\ phase = "returned"
            /\ Obs.err = (IF firstErr = "none" THEN "nil" ELSE firstErr)
            /\ Obs.closed = closed
            /\ Obs.cbs = cblog
+           /\ ("wire" \in DOMAIN Obs => Obs.wire = WireProj)
 NotObserved == ~Matches
 =============================================================================
